@@ -644,7 +644,12 @@ def run_forms(common, cases, chunk=200000):
 def forms_compare(case, impl, model):
     """(spec failures, mirror disagreements): lists of strings.  Every compound
     leaf of the source must be lifted, exactly once, as the plain assignment the
-    specification expects."""
+    specification expects.
+    Second audit: Spec.SurfaceSpec.expected_statement and
+    Model.Shortcuts.parse_substitution are the same function written twice
+    (Proofs.SurfaceProofs.parse_substitution_is_expected_statement, by
+    reflexivity): `spec` and `mirror` below are always equal, so the two lists
+    are one comparison reported under two headings, not two independent checks."""
     if not (impl.startswith("forms ") and model.startswith("forms ") and " # " in model):
         return (["forms not available: impl %s / spec %s" % (impl[:200], model[:200])], [])
     spec_s, mirror_s = model[6:].split(" # ", 1)
